@@ -98,6 +98,12 @@ static void run_cmd(char **a, int n) {
         int32 rc = p->ssl ? matrixSslEncodeToOutdata(p->ssl, d, (uint32) l) : -999;
         printf("app:%s pre=", a[1]); print_snap(p); printf(" rc=%s ", rc >= 0 ? "OK" : rcname(rc)); flush_out(p); free(d);
     }
+    else if (!strcmp(a[0], "appq") && n >= 3) {
+        /* like `app` but the encoded record stays in the out buffer (an application that has not got round to sending yet) */
+        unsigned char *d; size_t l = unhex(a[2], &d); peer_t *p = side(a[1]);
+        int32 rc = p->ssl ? matrixSslEncodeToOutdata(p->ssl, d, (uint32) l) : -999;
+        printf("appq:%s rc=%s", a[1], rc >= 0 ? "OK" : rcname(rc)); free(d);
+    }
     else if (!strcmp(a[0], "closure") && n >= 2) {
         peer_t *p = side(a[1]); int32 rc = p->ssl ? matrixSslEncodeClosureAlert(p->ssl) : -999;
         printf("closure:%s rc=%s ", a[1], rcname(rc)); flush_out(p); printf("post="); print_snap(p);
